@@ -8,6 +8,7 @@ import (
 	"fmt"
 	"runtime/debug"
 	"sync"
+	"sync/atomic"
 )
 
 type thread struct {
@@ -40,6 +41,8 @@ type Point struct {
 	RunningEnabled  bool
 }
 
+var activeFlag int32
+
 var (
 	mu     sync.Mutex
 	active *Exec
@@ -48,6 +51,9 @@ var (
 
 // Yield is a scheduling point. Outside a controlled execution it does nothing.
 func Yield(label string) {
+	if atomic.LoadInt32(&activeFlag) == 0 {
+		return // fast path: no controlled execution (instrumented files are also used by free-running code)
+	}
 	mu.Lock()
 	e := active
 	mu.Unlock()
@@ -107,10 +113,12 @@ func Run(bodies []func(), prefix []int) *Exec {
 	e := &Exec{parked: make(chan *thread), prefix: prefix, maxSteps: 5000}
 	mu.Lock()
 	active = e
+	atomic.StoreInt32(&activeFlag, 1)
 	mu.Unlock()
 	defer func() {
 		mu.Lock()
 		active = nil
+		atomic.StoreInt32(&activeFlag, 0)
 		mu.Unlock()
 	}()
 	for i, b := range bodies {
